@@ -824,13 +824,19 @@ def generate_name_alternatives():
             if entry[4]:
                 for a in alternatives:
                     for up, up_data in unit_prefixes.items():
+                        # every spelling of the micro prefix denotes the same
+                        # canonical symbol (see above)
+                        if up in ["u", "μ", "µ"]:
+                            okey = "μ" + key
+                        else:
+                            okey = up + key
                         if len(a) < 4:
-                            append_name(names[up + key], up + key, up + a)
+                            append_name(names[up + key], okey, up + a)
                         alt = up_data[1] + a
                         if alt not in seen:
-                            append_name(names[up + key], up + key, alt)
+                            append_name(names[up + key], okey, alt)
                         if alt.title() not in names[up + key]:
-                            append_name(names[up + key], up + key, alt.title())
+                            append_name(names[up + key], okey, alt.title())
             for alt in alternatives:
                 append_name(names[key], key, alt)
                 if not alt.islower() or len(alt) < 4:
